@@ -8,7 +8,8 @@ Open Scope Z_scope.
 
 Inductive case :=
 | CReady (acts : list act) (obs : list robs)
-| CRot (t0 : Z) (usedir : bool) (script : list outcome) (ops : list op) (obs : list obs).
+| CRot (t0 : Z) (usedir : bool) (script : list outcome) (ops : list op) (obs : list obs)
+| CConc (script : list outcome) (nreq : Z) (ready_ok : bool) (readers : list (list seg)).
 
 (* ------------------------------------------------------------------------------------- *)
 (* readiness: drive Ready.v with the actions, run the threads' own steps to quiescence after
@@ -103,12 +104,18 @@ Definition model_agrees (v : variant) (c : case) : bool :=
   match c with
   | CReady acts obs => all2 robs_eqb (ready_drive v Ready.init acts) obs
   | CRot t0 usedir script ops obs => all2 obs_eqb (rot_model t0 usedir script ops) obs
+  (* readers racing with renewals: the interleaving is not determined by the input, so there is
+     no single model run to compare with; what the models guarantee for EVERY interleaving is
+     stated by the theorems (C19_ready_no_deadlock, C19_renewal_published, C19_get_result,
+     C19_serves_latest) and demanded of the observation by the oracle *)
+  | CConc _ _ _ _ => true
   end.
 
 Definition oracle (c : case) : bool :=
   match c with
   | CReady acts obs => ready_oracle acts obs
   | CRot t0 usedir script ops obs => rot_oracle t0 usedir script ops obs
+  | CConc script nreq ready_ok readers => conc_oracle script nreq ready_ok readers
   end.
 
 (* 0 = agree and oracle holds; 1 = model and implementation differ; 2 = the implementation's
@@ -159,3 +166,15 @@ Example rot_smoke_oracle :
   let ops := [OpAdv (h / 2 - 1); OpAdv 1; OpAdv (10 * second - 1); OpTA; OpAdv 1; OpCancel] in
   check_case (CRot 1000000000000 true script ops (rot_model 1000000000000 true script ops)) = 0.
 Proof. vm_compute. reflexivity. Qed.
+
+(* readers racing with three renewals: a hang (issuer never asked again, a call that never
+   returned) or a stale / torn result is refused *)
+Example conc_smoke :
+  let script := [OOk (-10) 10; OOk (-10) 10; OFail; OOk (-10) 10] in
+  check_case (CConc script 5 true [[mkSeg 0 2 2; mkSeg 1 3 4; mkSeg 3 5 5]; [mkSeg 1 4 3; mkSeg 3 5 5]]) = 0 /\
+  check_case (CConc script 3 true [[mkSeg 0 2 2; mkSeg 1 3 3; mkSeg (-2) 3 3]]) = 2 /\
+  check_case (CConc script 5 true [[mkSeg 1 3 3; mkSeg 0 4 4]]) = 2 /\
+  check_case (CConc script 5 true [[mkSeg 0 2 5]]) = 2 /\
+  check_case (CConc script 5 true [[mkSeg 2 5 5]]) = 2 /\
+  check_case (CConc script 5 true [[mkSeg (-1) 5 5]]) = 2.
+Proof. vm_compute. repeat split. Qed.
